@@ -6,8 +6,9 @@ Property theorems only; the model is `Model/Markup.lean`, helper lemmas are `Lem
 
 Parameters of every theorem (`cfg : Cfg`): `norm` (= `Style.normalize`, arbitrary function),
 `isSpace` (arbitrary), `emoji` and the code variant flag `sortSpans`.  `emoji = none` is
-`render(..., emoji=False)`.  `sortSpans = true` is today's `text.spans = sorted(spans)`,
-`sortSpans = false` the repaired code (pending_fixes/C04-markup-span-order.diff).
+`render(..., emoji=False)`.  `sortSpans = true` is the `text.spans = sorted(spans)` of rich 9.10.0 as found (before fix 623ba68),
+`sortSpans = false` the repaired code that /repo contains now (fix 623ba68, the former
+pending_fixes/C04-markup-span-order.diff).
 
 No bound on the length of any string, the number of tags or the nesting depth anywhere.
 -/
@@ -170,13 +171,13 @@ theorem error_iff_nothing_to_close_partial (cfg : Cfg) (hE : cfg.emoji = none) (
     (∃ e, render cfg m = .error e) ↔ NothingToClose cfg [] (events m) := by
   rw [render_error_iff_sem cfg hE m, sem_none_iff]
 
-/-! ## today's code: `sorted(spans)` breaks the precedence (pre-finding F8) -/
+/-! ## rich 9.10.0 as found (before fix 623ba68): `sorted(spans)` breaks the precedence (pre-finding F8) -/
 
 /-- a configuration for concrete witnesses: identity `normalize`, emoji off -/
 def cfgId (sortSpans : Bool) : Cfg :=
   { norm := id, emoji := none, isSpace := pyIsSpace, sortSpans := sortSpans }
 
-/-- With today's `text.spans = sorted(spans)`, `[b][a]x` renders `x` under spans ordered
+/-- With the as-found `text.spans = sorted(spans)`, `[b][a]x` renders `x` under spans ordered
 `a, b`: the tag opened FIRST wins, against `tags_style_exactly`. -/
 theorem old_tags_style_exactly :
     render (cfgId true) "[b][a]x".toList = .ok ("x".toList, [⟨0, 1, "a".toList⟩, ⟨0, 1, "b".toList⟩]) ∧
